@@ -5,6 +5,7 @@ import importlib
 import json
 import os
 import subprocess
+import signal
 import sys
 import tempfile
 import time
@@ -692,8 +693,19 @@ def run_families(pid, tier, only=None):
         if only and name not in only:
             continue
         ctx = Ctx(name, source, tier)
+        budget = int(os.environ.get("FJVC_FAMILY_BUDGET_S", "900" if tier == "quick" else "3600"))
+
+        def _alarm(signum, frame):
+            raise Untranslatable(f"symbolic execution of the family exceeded its wall-clock budget of {budget}s")
+
+        old_handler = signal.signal(signal.SIGALRM, _alarm)
+        signal.alarm(budget)
         try:
-            fn(ctx)
+            try:
+                fn(ctx)
+            finally:
+                signal.alarm(0)
+                signal.signal(signal.SIGALRM, old_handler)
         except Untranslatable as ex:
             fam_errors.append((name, "untranslatable", str(ex)))
         except PyRaise as ex:
